@@ -6,7 +6,7 @@
   run (vf/props/c19.py).
 -/
 import QExPy.Model.Plot
-import QExPy.Props.C01
+import QExPy.Real
 namespace QExPy.Plot
 open QExPy.Expr
 
